@@ -169,7 +169,11 @@ var verifArgKinds = []int{0, 3, 4, 5, 6, 7}
 // significant.
 func VerifH_C02_two_args() {
 	vm := New()
-	f := verifTwoArgFns[verifChoose(len(verifTwoArgFns))]
+	lo, hi := verifParam("from", 0), verifParam("to", len(verifTwoArgFns))
+	if hi > len(verifTwoArgFns) {
+		hi = len(verifTwoArgFns)
+	}
+	f := verifTwoArgFns[lo+verifChoose(hi-lo)]
 	maxStr := verifParam("maxstr", 2)
 	verifSetKind(vm, "T", f.recv, maxStr)
 	verifSetKind(vm, "A", verifArgKinds[verifChoose(len(verifArgKinds))], maxStr)
